@@ -74,7 +74,7 @@ package saml2
 //@     invariant [C06] prefix: forall r int :: 0 <= r && r < $i ==> RestrictionMatches(conditions.AudienceRestrictions[r], sp.AudienceURI)
 //@   loop 1
 //@     invariant [C06] nomatch: !matched
-//@     invariant [C06] prefix: forall u int :: 0 <= u && u < $i ==> audienceRestriction.Audiences[u].Value != sp.AudienceURI
+//@     invariant [C06] prefix: forall u int :: 0 <= u && u < $i ==> conditions.AudienceRestrictions[$i1].Audiences[u].Value != sp.AudienceURI
 //@   loop 2
 //@     invariant [C06] len: len(proxyRestrictionInfo.Audience) == $i
 //@     invariant [C06] values: forall m int :: 0 <= m && m < $i ==> proxyRestrictionInfo.Audience[m] == proxyRestriction.Audience[m].Value
@@ -245,9 +245,10 @@ package saml2
 //@   ensures [C08] values: HasValues(vals, k) ==> forall j int :: 0 <= j && j < len(vals[k].Values) ==> result[j] == vals[k].Values[j].Value
 //@   ensures [C08] absent: !HasValues(vals, k) ==> result == nil
 //@   loop 0
-//@     invariant [C08] bound: 0 <= i && i <= len(v.Values)
-//@     invariant [C08] len: len(av) == i
-//@     invariant [C08] values: forall j int :: 0 <= j && j < i ==> av[j] == v.Values[j].Value
+//@     invariant [C08] bound: 0 <= $i && $i <= len(v.Values)
+//@     invariant [C08] len: len(av) == $i
+//@     invariant [C08] empty: $i == 0 ==> av == nil
+//@     invariant [C08] values: forall j int :: 0 <= j && j < $i ==> av[j] == v.Values[j].Value
 
 // ---------------------------------------------------------------------------
 // decode_response.go / decode_logout_request.go: provenance (C01 C02 C04 C07 C10), totality (C09), limits (C12)
